@@ -245,6 +245,28 @@ func (ms *ModSet) inject(rng *rand.Rand) {
 				// ... in a file of the same module as the first declaration
 				ms.Files[f].Module = ms.Files[cf].Module
 			}
+			if ModSetDupNames && rng.Intn(3) == 0 {
+				// two duplicate conditions in one file whose names are prefixes of each other, the longer declared
+				// first (C12 only: several errors for one file, in an order no text position can settle)
+				long := cd
+				long.Name = cd.Name + []string{"_strict", "2", "x"}[rng.Intn(3)]
+				long.Key = long.Name
+				taken := false
+				for _, fl := range ms.Files {
+					for _, e := range fl.Conds {
+						if e.Name == long.Name {
+							taken = true
+						}
+					}
+				}
+				if !taken {
+					first := ms.Files[cf].Conds[ci]
+					first.Name, first.Key = long.Name, long.Name
+					ms.Files[cf].Conds = append(ms.Files[cf].Conds, first)
+					ms.Files[f].Conds = append(ms.Files[f].Conds, long)
+					ms.Conflicts = append(ms.Conflicts, Conflict{"dup-cond", -1, f, fmt.Sprintf("cond:%s#0", long.Name), long.Name})
+				}
+			}
 			ms.Files[f].Conds = append(ms.Files[f].Conds, cd)
 			ms.Conflicts = append(ms.Conflicts, Conflict{"dup-cond", -1, f, fmt.Sprintf("cond:%s#0", cd.Name), cd.Name})
 			return
@@ -383,6 +405,18 @@ func (ms *ModSet) inject(rng *rand.Rand) {
 			ms.Files[f].Module = ""
 			ms.Files[f].Schema = "1.1"
 			ms.Conflicts = append(ms.Conflicts, Conflict{"not-a-module", -1, f, "", ms.Names[f]})
+			// sometimes a second one in the same list: every such file is reported under its own name
+			if g := rng.Intn(nf); g != f && rng.Intn(2) == 0 && ms.Files[g].Module != "" && len(ms.Files[g].Types)+len(ms.Files[g].Conds) > 0 {
+				ext := false
+				for _, t := range ms.Files[g].Types {
+					ext = ext || t.Extend
+				}
+				if !ext {
+					ms.Files[g].Module = ""
+					ms.Files[g].Schema = "1.1"
+					ms.Conflicts = append(ms.Conflicts, Conflict{"not-a-module", -1, g, "", ms.Names[g]})
+				}
+			}
 			return
 		case 5: // syntax error
 			f := rng.Intn(nf)
